@@ -240,6 +240,15 @@ func runEnc(prop string, seed uint64, tier, dir string) error {
 			v, term, kind = a, "(EAct "+t+")", "element:action/deep-conntrack"
 		case which < 7:
 			a, t := g.action(2)
+			if len(g.late) > 0 && rng.Bool() {
+				// sized and encoded once while still incomplete: it must not remember anything of that
+				func() {
+					defer func() { recover() }()
+					a.Len()
+					a.MarshalBinary()
+				}()
+				g.use("history:encoded-before-complete")
+			}
 			g.flushLate()
 			v, term, kind = a, "(EAct "+t+")", "element:action"
 		case which == 7:
